@@ -79,15 +79,16 @@ def mergeIn (lvl n : Nat) (out inp : List G) : Option (List G × List G) :=
   else if lvl = 2 then some (out, inp)
   else if inp.length < n then none
   else
-    let seg := inp.take n
     let rest := inp.drop n
-    match seg.head?, seg.getLast? with
-    | some g0, some gl =>
+    match inp.take n with
+    | [] => none
+    | g0 :: tl =>
+      let seg := g0 :: tl
+      let gl := seg.getLast (List.cons_ne_nil g0 tl)
       let cluster := minCl seg g0.cl
       let rest' := if cluster != gl.cl then mapWhile (fun g => g.cl == gl.cl) (setCl cluster) rest else rest
       let out' := if g0.cl != cluster then mapWhileBack (fun g => g.cl == g0.cl) (setCl cluster) out else out
       some (out', seg.map (setCl cluster) ++ rest')
-    | _, _ => none
 
 -- src: buffer.rs::merge_out_clusters
 -- `end - start` on usize with end < start: overflow panic (debug) / wrap then index panic → `none`.
@@ -98,10 +99,12 @@ def mergeOut (lvl start end_ : Nat) (out inp : List G) : Option (List G × List 
   else if out.length < end_ then none
   else
     let a := out.take start
-    let seg := (out.take end_).drop start
     let b := out.drop end_
-    match seg.head?, seg.getLast? with
-    | some g0, some gl =>
+    match (out.take end_).drop start with
+    | [] => none
+    | g0 :: tl =>
+      let seg := g0 :: tl
+      let gl := seg.getLast (List.cons_ne_nil g0 tl)
       let cluster := minCl seg g0.cl
       let a' := mapWhileBack (fun g => g.cl == g0.cl) (setCl cluster) a
       let b' := mapWhile (fun g => g.cl == gl.cl) (setCl cluster) b
@@ -109,7 +112,6 @@ def mergeOut (lvl start end_ : Nat) (out inp : List G) : Option (List G × List 
       let inp' := if b.all (fun g => g.cl == gl.cl) then mapWhile (fun g => g.cl == gl.cl) (setCl cluster) inp
                   else inp
       some (a' ++ seg.map (setCl cluster) ++ b', inp')
-    | _, _ => none
 
 -- src: buffer.rs::replace_glyphs   (assert!(idx + num_in <= len); info[idx] is read: len > idx needed)
 def replaceGlyphs (lvl n : Nat) (data : List Nat) (out inp : List G) : Option (List G × List G) :=
@@ -141,7 +143,7 @@ structure St where
   inp : List G
   start : Nat
   end_ : Nat
-deriving Repr
+deriving DecidableEq, Repr
 
 /-- the statements `start = end = out_len; continue` closing the tone-mark branch -/
 def afterTone (out inp : List G) : St := { out := out, inp := inp, start := out.length, end_ := out.length }
@@ -202,6 +204,22 @@ def stepLV (c : Cfg) (st : St) (gl gv : G) (rest2 : List G) : Option St :=
       else closeSyllable c start (start + 2) (st.out ++ [setTag LJMO gl, setTag VJMO gv]) rest2
     | [] => closeSyllable c start (start + 2) (st.out ++ [setTag LJMO gl, setTag VJMO gv]) rest2
 
+-- src: preprocess_text_hangul, "We decomposed S: apply jamo features to the individual glyphs":
+--   out_info_mut()[start + 0] = LJMO; [start + 1] = VJMO; if start + 2 < end { [start + 2] = TJMO }
+def tagOut (start end_ : Nat) (out : List G) : Option (List G) :=
+  match modAt (setTag LJMO) start out with
+  | none => none
+  | some out3 =>
+    match modAt (setTag VJMO) (start + 1) out3 with
+    | none => none
+    | some out4 => if start + 2 < end_ then modAt (setTag TJMO) (start + 2) out4 else some out4
+
+/-- `end = start + s_len;` tag; merge clusters at level 0; `continue` -/
+def finishDecomposed (c : Cfg) (start sLen : Nat) (out inp : List G) : Option St :=
+  match tagOut start (start + sLen) out with
+  | none => none
+  | some out' => closeSyllable c start (start + sLen) out' inp
+
 -- src: preprocess_text_hangul, branch `is_combined_s(u)`:  g = cur(0)
 def stepS (c : Cfg) (st : St) (g : G) (rest : List G) : Option St :=
   let start := st.out.length
@@ -235,27 +253,11 @@ def stepS (c : Cfg) (st : St) (g : G) (rest : List G) : Option St :=
       | none => none
       | some (out1, inp1) =>
         -- a following non-combining T joins the syllable only if the LV glyph exists (`has_glyph && tindex == 0`)
-        let r : Option (List G × List G × Nat) :=
-          if hasS && tindex == 0 then
-            match inp1 with
-            | gt :: r => some (out1 ++ [gt], r, sLen + 1)
-            | [] => none
-          else some (out1, inp1, sLen)
-        match r with
-        | none => none
-        | some (out2, inp2, sLen) =>
-          let end_ := start + sLen
-          match modAt (setTag LJMO) start out2 with
-          | none => none
-          | some out3 =>
-            match modAt (setTag VJMO) (start + 1) out3 with
-            | none => none
-            | some out4 =>
-              if start + 2 < end_ then
-                match modAt (setTag TJMO) (start + 2) out4 with
-                | none => none
-                | some out5 => closeSyllable c start end_ out5 inp2
-              else closeSyllable c start end_ out4 inp2
+        if hasS && tindex == 0 then
+          match inp1 with
+          | gt :: r => finishDecomposed c start (sLen + 1) (out1 ++ [gt]) r     -- next_glyph; s_len += 1
+          | [] => none
+        else finishDecomposed c start sLen out1 inp1
     else if hasS then
       some { out := st.out ++ [g], inp := rest, start := start, end_ := start + 1 }
     else some (fallThrough st g rest)
